@@ -17,4 +17,14 @@ CHECKS = {
  },
 }
 
+CHECKS['C12'] = {
+  'text': 'Decides three structural necessary conditions on every path of the checked build: no mutation of self-reachable '
+          'state before any contract-error raise point in the container/String operations and their helpers (NOPRE over the CFG '
+          'with a pointer-origin analysis), the documented exception kind per operation (sibling table, no-hit exit of rem), and '
+          'dominance of the NULL/magic/class/member/allocation-class tests in the dispatcher and dealloc. Does not decide absence '
+          'of memory errors in general.',
+  'note': ASSUME + '; default configuration only (CELLO_NDEBUG removes the checks by design)',
+  'technique': 'CFG reachability (mutation-before-raise), pointer-origin/effect summaries, guard dominance cuts, sibling tables',
+}
+
 NOT_APPLICABLE = {}
